@@ -65,7 +65,8 @@ def generate(template_path, repo, out_name):
                 if n not in names:
                     raise X.ExtractionBroken('layout: member %s::%s no longer exists or cannot be lowered' % (t['class'], n))
             g.structs[cname] = names
-            return txt
+            # one feature macro per member, so that a spec can adapt to members that exist only in some trees
+            return txt + ''.join('#define HAS_%s_%s 1\n' % (cname, nm) for nm in names)
         if kind == 'members_on':
             return L.members_on(g.structs[arg.strip()])
         if kind == 'members_off':
